@@ -106,6 +106,15 @@ CHECKS = {
    design_ref='DESIGN.md section 6 (C02)',
    note='Trusted: TLC, the recorder\'s parsing of a page into static text / sink lines / menu lines. Two known findings (empty row at a page start dropped; next into an oversize page) are excused only where the real family equals the pinned algorithm transcription.',
    technique='TLA+ spec + TLC exhaustive enumeration + contract evaluation on real page families'),
+ 'C13': dict(
+   category='model_checking',
+   text='PgTx.tla models the pgDb handle (tx, multi; Start/Stop/Abort/Put/Get split into primitive driver calls) over a transactional server with the aborted-transaction rule '
+        'and a fault plan; TLC explores all operation sequences to a bound with every placement of 1-2 failing primitives and checks NoPanic, ErrorReported, NoWedge/AckedVisible, '
+        'EndedOnce, Multi against a keyed-map oracle; every behaviour is executed on the real pgDb over an in-process fake of the pgx interface and TLC judges every real operation '
+        'against the oracle folded over the recorded sequence.',
+   design_ref='DESIGN.md section 6 (C13)',
+   note='Trusted: TLC, fakepg (120-line transactional fake), oracle in PgTx.tla. One known finding (sticky multi) excused only for operations after an explicit transaction has ended on the handle.',
+   technique='TLA+ spec (PgTx.tla) + TLC exhaustive fault enumeration + trace validation of the real handle over a fake server'),
 }
 
 NOT_YET = 'check not built yet in this round (planned: DESIGN.md section 6); not claimed until its machinery exists'
